@@ -501,6 +501,9 @@ func c16Driver(c *Ctx, rng *Rng) {
 			c.Violate("corr-driver", "file-driver model and fc disagree: "+trunc(strings.Join(diffs, "; "), 200)+" (args "+strings.Join(sc.Args, " ")+")", rep, true)
 		}
 	}
+	if c.Replay == "" {
+		c16ResolverCorr(c, rng, srv)
+	}
 	c.Res.Rule += "; file driver: random argument lists (1-5 arguments: good/bad/dependent .fo, .foi, .txt, missing, directory, duplicates; destinations: directory, symlink to /dev/full, dangling symlink, pre-existing marker) run through the real fc process in a fresh directory against the extracted transpile_files (exit class, failing argument, set and content of gen files)"
 }
 
@@ -518,4 +521,146 @@ func drvLoadReplay(path string) (drvScenario, bool) {
 		return drvScenario{}, false
 	}
 	return *doc.Replay.Scenario, true
+}
+
+// ---------------------------------------------------------------- resolver correspondence
+// Core/Resolve.v (resolve = resolveType with the path check) against updateResolver + resolveType of the
+// tree under test (hook op "resolve"). The model's resolver is a solved form, so the relations given to
+// updateResolver are in solved form too: at most one relation per variable, a variable-to-variable
+// relation always from the later name to the earlier one (the orientation compositeTp itself keeps);
+// they are fed in a random order. Cyclic resolvers are generated on purpose.
+
+func resGenTy(rng *Rng, depth int, varBelow int) string {
+	// varBelow > 0: only variables T0..T(varBelow-1) (keeps the dependency relation acyclic); 0: no variable; <0: any of T0..T7
+	leaf := func() string {
+		k := rng.Intn(6)
+		if k < 3 && varBelow != 0 {
+			if varBelow > 0 {
+				return fmt.Sprintf("v:T%d", rng.Intn(varBelow))
+			}
+			return fmt.Sprintf("v:T%d", rng.Intn(8))
+		}
+		return Choose(rng, []string{"int", "str", "bool"})
+	}
+	if depth <= 0 || rng.Chance(1, 3) {
+		return leaf()
+	}
+	switch rng.Intn(3) {
+	case 0:
+		return "sl " + resGenTy(rng, depth-1, varBelow)
+	case 1:
+		n := 2 + rng.Intn(2)
+		s := fmt.Sprintf("tu:%d", n)
+		for i := 0; i < n; i++ {
+			s += " " + resGenTy(rng, depth-1, varBelow)
+		}
+		return s
+	default:
+		n := 1 + rng.Intn(3)
+		s := fmt.Sprintf("fn:%d", n)
+		for i := 0; i < n; i++ {
+			s += " " + resGenTy(rng, depth-1, varBelow)
+		}
+		return s
+	}
+}
+
+func c16ResolverCorr(c *Ctx, rng *Rng, srv *FcSrv) {
+	or := c.Oracle()
+	fixed := []struct {
+		rels [][2]string
+		ty   string
+	}{
+		{[][2]string{{"T0", "fn:2 v:T0 v:T1"}}, "v:T0"},                             // let f x = x x
+		{[][2]string{{"T1", "sl v:T1"}}, "fn:2 int v:T1"},                           // let g x = g [x]
+		{[][2]string{{"T5", "sl v:T0"}, {"T0", "sl v:T1"}, {"T1", "v:T0"}}, "v:T5"}, // a cycle through a variable-to-variable relation
+		{[][2]string{{"T3", "v:T1"}, {"T1", "sl int"}, {"T2", "v:T1"}}, "tu:3 v:T3 v:T2 v:T7"},
+		{[][2]string{{"T2", "tu:2 v:T1 v:T1"}, {"T1", "fn:2 v:T0 v:T0"}, {"T0", "sl str"}}, "sl v:T2"},
+	}
+	type scen struct {
+		rels [][2]string
+		ty   string
+		mode string
+	}
+	var scs []scen
+	for _, f := range fixed {
+		scs = append(scs, scen{f.rels, f.ty, "fixed"})
+	}
+	for i := 0; i < c.Pick(300, 6000); i++ {
+		acyclic := rng.Bool()
+		var rels [][2]string
+		for v := 0; v < 7; v++ {
+			if !rng.Chance(11, 20) {
+				continue
+			}
+			name := fmt.Sprintf("T%d", v)
+			switch {
+			case v > 0 && rng.Chance(1, 5):
+				rels = append(rels, [2]string{name, fmt.Sprintf("v:T%d", rng.Intn(v))}) // later name := earlier name
+			case acyclic:
+				t := resGenTy(rng, 3, v)
+				if strings.HasPrefix(t, "v:") {
+					t = "sl " + t
+				}
+				rels = append(rels, [2]string{name, t})
+			default:
+				t := resGenTy(rng, 3, -1)
+				if strings.HasPrefix(t, "v:") {
+					t = "sl " + t
+				}
+				rels = append(rels, [2]string{name, t})
+			}
+		}
+		p := rng.Perm(len(rels))
+		sh := make([][2]string, len(rels))
+		for i, j := range p {
+			sh[i] = rels[j]
+		}
+		mode := "any"
+		if acyclic {
+			mode = "acyclic-by-construction"
+		}
+		q := resGenTy(rng, 3, -1)
+		if rng.Bool() {
+			q = fmt.Sprintf("tu:3 v:T%d v:T%d v:T%d", rng.Intn(8), rng.Intn(8), rng.Intn(8))
+		}
+		scs = append(scs, scen{sh, q, mode})
+	}
+	for _, sc := range scs {
+		r := srv.Resolve(sc.rels, sc.ty)
+		req := "(resolve (rels"
+		for _, rl := range sc.rels {
+			req += " (" + Sq(rl[0]) + " " + Sq(rl[1]) + ")"
+		}
+		req += ") " + Sq(sc.ty) + ")"
+		model := or.Ask("C16", req)
+		impl := ""
+		switch {
+		case r.Died:
+			impl = "DIED " + r.Err
+		case r.Ok:
+			impl = "RESOLVED " + r.Fmt
+		case strings.Contains(r.Err, "Recursive type is not supported"):
+			impl = "CYCLIC"
+		default:
+			impl = "PANIC " + r.Err
+		}
+		c.Eval("resolve:"+req, true)
+		c.Compared(1)
+		c.Count("resolver_mode=" + sc.mode)
+		c.Count("resolver_outcome=" + strings.Fields(model)[0])
+		c.Count(fmt.Sprintf("resolver_relations=%d", len(sc.rels)))
+		if sc.mode == "acyclic-by-construction" && model == "CYCLIC" {
+			panic("the resolver generator produced a cycle in acyclic mode: " + req)
+		}
+		if impl != model {
+			c.Disagree()
+			c.Violate("corr-resolver", "resolver model and updateResolver/resolveType disagree: impl "+trunc(impl, 90)+" / model "+trunc(model, 90),
+				map[string]any{"broken": "Core/Resolve.v resolve vs fc/infer.fo updateResolver + resolveType", "relations": sc.rels, "type": sc.ty, "implementation": impl, "model": model}, true)
+			if r.Died {
+				return
+			}
+		}
+	}
+	c.Res.Rule += "; resolver: random solved-form relation sets (half acyclic by construction, half arbitrary, so cyclic ones occur) through updateResolver + resolveType of the hooked fc against Core/Resolve.v (resolved type or the cyclic-type diagnostic)"
 }
